@@ -232,10 +232,11 @@ ConfigT = Rec("MagicNumberConfig", cls=CF + "MagicNumberConfig", pycls="src.lint
               exempt_definition_files=Bool)
 
 # the code's default set (config.DEFAULT_ALLOWED_NUMBERS); docs list only the first ten values
-DEFAULT_ALLOWED = (-1, 0, 1, 2, 3, 4, 5, 10, 100, 1000, 21, 22, 80, 443, 3000, 5000, 8080, 8443)
+# (a LIST, so that `section value if present else default` is one dynamic value instead of a path split)
+DEFAULT_ALLOWED = [-1, 0, 1, 2, 3, 4, 5, 10, 21, 22, 80, 100, 443, 1000, 3000, 5000, 8080, 8443]  # (ascending)
 
 
-@contract(CF + "MagicNumberConfig.__post_init__", props=["C02", "C05"], types=dict(self=ConfigT), raises=["ValueError"])
+@contract(CF + "MagicNumberConfig.__post_init__", props=["C02", "C05", "C04", "C08", "C10"], types=dict(self=ConfigT), raises=["ValueError"])
 class ConfigPostInit:
     def raises_when(self):
         # property/DESIGN: max_small_integer <= 0 is rejected
@@ -281,7 +282,9 @@ def chosen_max_small(config, language):
     return top_max_small(config)
 
 
-@contract(CF + "MagicNumberConfig.from_dict", props=["C02", "C05"], types=dict(config=Dict, language=Opt(Str)),
+# (C04/C08/C10: the section dict is shared by the orchestrator across files and runs -- from_dict must not write it:
+# `config` is not in modifies, so every run carries a frame obligation on it)
+@contract(CF + "MagicNumberConfig.from_dict", props=["C02", "C05", "C04", "C08", "C10"], types=dict(config=Dict, language=Opt(Str)),
           returns=ConfigT, raises=["ValueError"])
 class ConfigFromDict:
     def requires(config, language):
@@ -1124,8 +1127,14 @@ def ts_passes_filters(lit: TSLitT, file_path: OptPath, content: Opt(Str)) -> Boo
     return (not ts_exempt(lit[0], file_path)) and not ts_inline_ignored(RULE_ID, fp_text(file_path), lit[2], content)
 
 
+@opaque
+def lit_allowed(lit: TSLitT, allowed: SeqOf(Int)) -> Bool:
+    """The literal's value is in allowed_numbers (kept opaque so that the folds and their lemmas stay small)."""
+    return lit[1] in allowed
+
+
 def ts_reported(lit, file_path, content, allowed):
-    return (lit[1] not in allowed) and ts_passes_filters(lit, file_path, content)
+    return (not lit_allowed(lit, allowed)) and ts_passes_filters(lit, file_path, content)
 
 
 @opaque
@@ -1142,6 +1151,7 @@ class TryCreateTypescriptViolation:
 
     def reveals(self, node, value, line_number, context, config, analyzer):
         return (reveal(ts_violation, (node, value, line_number), context.file_path)
+                and reveal(lit_allowed, (node, value, line_number), config.allowed_numbers)
                 and reveal(ts_passes_filters, (node, value, line_number), context.file_path, context.file_content))
 
     def ensures_reported_iff_flagged_and_not_suppressed(self, node, value, line_number, context, config, analyzer, result):
@@ -1199,7 +1209,7 @@ def rust_passes_filters(lit: TSLitT, file_path: OptPath, content: Opt(Str)) -> B
 
 
 def rust_reported(lit, file_path, content, allowed):
-    return (lit[1] not in allowed) and rust_passes_filters(lit, file_path, content)
+    return (not lit_allowed(lit, allowed)) and rust_passes_filters(lit, file_path, content)
 
 
 @opaque
@@ -1216,6 +1226,7 @@ class TryCreateRustViolation:
 
     def reveals(self, node, value, line_number, context, config, analyzer):
         return (reveal(rust_violation, (node, value, line_number), context.file_path)
+                and reveal(lit_allowed, (node, value, line_number), config.allowed_numbers)
                 and reveal(rust_passes_filters, (node, value, line_number), context.file_path, context.file_content))
 
     def ensures_reported_iff_flagged_and_not_suppressed(self, node, value, line_number, context, config, analyzer, result):
@@ -1289,27 +1300,69 @@ def rust_allowed_delta(rule, node, value, line, context, config, analyzer, a):
 
 
 # =================================================================== per-language entry points (linter.py)
-# file-level filters: the `ignore` glob list (path handling: property C09) and the definition-module heuristic
-file_ignored = uf("c02_file_ignored", [OptPath, SeqOf(Str)], Bool)
-definition_file = uf("c02_definition_file", [OptPath, Opt(Str)], Bool)
-py_tree = uf("c02_py_tree", [Opt(Str)], PyNode)  # ast.parse(code or "") -- None on SyntaxError (parser trusted)
+# file-level filters: the `ignore` pattern list and the definition-module heuristic
+from pyvc.ty import VBool as _VBool, VOpaque as _VOpaque, Unsupported as _Unsupported  # noqa: E402
+
+# pathlib.PurePath.match (glob matching from the right) is external: an uninterpreted predicate of (path, pattern)
+path_glob_match = uf("c02_path_glob_match", [PathT, Str], Bool, concrete=lambda p, pat: p.match(pat))
+
+
+# (pathlib.Path(<Path>) -- identity -- is the external registered by contracts/c09_paths.py)
+
+
+def _path_match(ex, args, kwargs, lineno):
+    """path.match(pattern): the uninterpreted glob predicate. NOT modelled: pathlib raises ValueError('empty pattern')
+    for an empty pattern (the call sits under a generator, where no raise can be tracked); the contracts of the callers
+    (_is_file_ignored, _check_*) therefore REQUIRE non-empty patterns."""
+    path, pattern = args[0], args[1]
+    ex.ufs_used.add("c02_path_glob_match")
+    f = _z3.Function("uf.c02_path_glob_match", PathT.sort(), _z3.StringSort(), _z3.BoolSort())
+    return _VBool(f(path.t, pattern.t))
+
+
+from pyvc.ex_call import EXTERNALS as _EXTERNALS  # noqa: E402
+
+_EXTERNALS.setdefault("Path.match", _path_match)  # (never replaces a handler another contract file registered)
+
+
+def pattern_matches(file_path, pattern):
+    """docs (ignore patterns): a glob match of the path, or the pattern occurring in the path string."""
+    return path_glob_match(file_path, pattern) or pattern in path_str(file_path)
+
+
+def file_ignored(file_path, patterns):
+    """The file is excluded by the linter's `ignore` list: it has a path and some pattern matches it."""
+    return file_path is not None and any(pattern_matches(file_path, pattern) for pattern in patterns)
 
 
 def no_empty_pattern(patterns):
     return all(len(p) > 0 for p in patterns)
 
 
-@contract(LI + "MagicNumberRule._is_file_ignored", props=["C02"], types=dict(self=RuleT, context=CtxT, config=ConfigT),
-          returns=Bool,
-          assumed="glob matching of the file path against config.ignore (pathlib.Path.match is external; ignore-pattern "
-                  "path handling is property C09's subject): an uninterpreted predicate of (path, patterns)")
+@contract(LI + "MagicNumberRule._matches_pattern", props=["C02", "C04", "C09"], types=dict(self=RuleT, file_path=PathT, pattern=Str),
+          returns=Bool)
+class MatchesPattern:
+    def native_domain(pattern):
+        # an EMPTY pattern makes pathlib raise ValueError('empty pattern') (observed natively on the CLI): not modelled, see
+        # Path.match above; the callers' contracts require non-empty patterns
+        return len(pattern) > 0
+
+    def value(self, file_path, pattern):
+        return pattern_matches(file_path, pattern)
+
+
+@contract(LI + "MagicNumberRule._is_file_ignored", props=["C02", "C04", "C09"], types=dict(self=RuleT, context=CtxT, config=ConfigT),
+          returns=Bool)
 class IsFileIgnored:
     def requires(self, context, config):
-        # an EMPTY ignore pattern makes pathlib.Path.match raise ValueError('empty pattern') (observed natively)
         return no_empty_pattern(config.ignore)
 
     def value(self, context, config):
         return file_ignored(context.file_path, config.ignore)
+
+
+definition_file = uf("c02_definition_file", [OptPath, Opt(Str)], Bool)
+py_tree = uf("c02_py_tree", [Opt(Str)], PyNode)  # ast.parse(code or "") -- None on SyntaxError (parser trusted)
 
 
 @contract(LI.replace("linter.py", "definition_detector.py") + "is_definition_file", props=["C02"],
@@ -1736,6 +1789,8 @@ def ts_file_delta(lits, acc, file_path, content, allowed, a):
     if len(lits) == 0:
         return collect_ts(lits, acc, file_path, content, allowed + [a]) == \
             collect_ts(without_value_ts(lits, a), acc, file_path, content, allowed)
+    reveal(lit_allowed, lits[0], allowed)
+    reveal(lit_allowed, lits[0], allowed + [a])
     if ts_reported(lits[0], file_path, content, allowed + [a]):
         ih(ts_file_delta, lits[1:], acc + [ts_violation(lits[0], file_path)], file_path, content, allowed, a)
     else:
@@ -1764,9 +1819,417 @@ def rust_file_delta(lits, acc, file_path, content, allowed, a):
     if len(lits) == 0:
         return collect_rust(lits, acc, file_path, content, allowed + [a]) == \
             collect_rust(without_value_ts(lits, a), acc, file_path, content, allowed)
+    reveal(lit_allowed, lits[0], allowed)
+    reveal(lit_allowed, lits[0], allowed + [a])
     if rust_reported(lits[0], file_path, content, allowed + [a]):
         ih(rust_file_delta, lits[1:], acc + [rust_violation(lits[0], file_path)], file_path, content, allowed, a)
     else:
         ih(rust_file_delta, lits[1:], acc, file_path, content, allowed, a)
     return collect_rust(lits, acc, file_path, content, allowed + [a]) == \
         collect_rust(without_value_ts(lits, a), acc, file_path, content, allowed)
+
+
+# =================================================================== BOUNDED differential: configuration precedence
+# MagicNumberConfig.from_dict is proved above for the code as written; a rewrite that leaves the verified subset would only
+# be UNDECIDED. This bounded native differential runs the REAL from_dict of $VERIF_REPO on a systematic grid of small
+# configuration dicts (every key absent / empty / non-empty at top level and in a language section, every language
+# argument) against the SAME spec functions the contract uses (chosen_allowed / chosen_max_small), and checks the frame
+# (a reader must not write the dict it is given). Labelled bounded.
+@custom("c02-config-precedence", props=["C02", "C05", "C08", "C10"])
+def config_precedence_bounded(ctx):
+    import copy
+    import importlib
+    import itertools
+    import os
+    import sys
+    repo = ctx.get("repo") or os.environ.get("VERIF_REPO", "/repo")
+    if repo not in sys.path:
+        sys.path.insert(0, repo)
+    for m in [k for k in sys.modules if k == "src" or k.startswith("src.")]:
+        if not getattr(sys.modules[m], "__file__", "").startswith(os.path.abspath(repo)):
+            del sys.modules[m]
+    cfg_mod = importlib.import_module("src.linters.magic_numbers.config")
+    ABSENT = object()
+    allowed_vals = (ABSENT, [], [7], [0, 1, 7, 100])
+    small_vals = (ABSENT, 1, 5, 20, 0, -3)
+    sections = [dict(a=a, m=m) for a in allowed_vals for m in (ABSENT, 1, 3, 0)]
+    langs = (None, "", "python", "typescript", "rust")
+
+    def build(d):
+        out = {}
+        if d["a"] is not ABSENT:
+            out["allowed_numbers"] = list(d["a"])
+        if d["m"] is not ABSENT:
+            out["max_small_integer"] = d["m"]
+        return out
+
+    bad = {"allowed": [], "max_small": [], "raises": [], "frame": [], "passthrough": []}
+    n = 0
+    for a, m in itertools.product(allowed_vals, small_vals):
+        top = build(dict(a=a, m=m))
+        for sec_lang in (ABSENT, "python", "rust"):
+            for sec in ([None] if sec_lang is ABSENT else sections):
+                for extra in ({}, {"ignore": ["tests/"], "enabled": False, "exempt_definition_files": False}):
+                    config = dict(top, **extra)
+                    if sec_lang is not ABSENT:
+                        config[sec_lang] = build(sec)
+                    for language in langs:
+                        n += 1
+                        before = copy.deepcopy(config)
+                        want_raise = chosen_max_small(config, language) <= 0
+                        try:
+                            got = cfg_mod.MagicNumberConfig.from_dict(config, language)
+                            raised = None
+                        except ValueError as e:
+                            got, raised = None, e
+                        case = {"config": before, "language": language}
+                        if config != before and len(bad["frame"]) < 3:
+                            bad["frame"].append(dict(case, after=copy.deepcopy(config)))
+                        if (raised is not None) != want_raise:
+                            if len(bad["raises"]) < 3:
+                                bad["raises"].append(dict(case, raised=repr(raised), spec_says_raises=want_raise))
+                            continue
+                        if raised is not None:
+                            continue
+                        if not same_members(got.allowed_numbers, chosen_allowed(before, language)) and len(bad["allowed"]) < 3:
+                            bad["allowed"].append(dict(case, code=sorted(got.allowed_numbers),
+                                                       spec=sorted(chosen_allowed(before, language))))
+                        if got.max_small_integer != chosen_max_small(before, language) and len(bad["max_small"]) < 3:
+                            bad["max_small"].append(dict(case, code=got.max_small_integer, spec=chosen_max_small(before, language)))
+                        if (got.enabled, got.ignore, got.exempt_definition_files) != \
+                                (before.get("enabled", True), before.get("ignore", []), before.get("exempt_definition_files", True)) \
+                                and len(bad["passthrough"]) < 3:
+                            bad["passthrough"].append(dict(case, code=[got.enabled, got.ignore, got.exempt_definition_files]))
+    what = {"allowed": "allowed_numbers: language section, then top level, then the default set (an explicitly EMPTY list counts)",
+            "max_small": "max_small_integer: language section, then top level, then 10",
+            "raises": "ValueError exactly when the chosen max_small_integer <= 0",
+            "frame": "from_dict does not modify the dict it is given",
+            "passthrough": "enabled / ignore / exempt_definition_files are taken from the top level unchanged"}
+    return [{"name": f"bounded:MagicNumberConfig.from_dict/{k}-as-documented", "kind": "bounded",
+             "verdict": "refuted" if v else "passed", "tool": "exhaustive enumeration (native differential against the contract's spec)",
+             "budget": "grid: 4 allowed_numbers x 6 max_small_integer at top level x {no section, python, rust} x 16 sections "
+                       "x 2 passthrough settings x 5 language arguments", "cases": n, "witness": v, "witness_confirmed": bool(v),
+             "note": (f"{what[k]} -- violated, first: {v[0]}" if v else f"{what[k]}: holds on all {n} cases")}
+            for k, v in bad.items()]
+
+
+# =================================================================== which configuration applies (linter.py: _load_config)
+# `config` is the test-style attribute (None stands for "absent or None": both are skipped), `metadata` the production one
+LoadCtxT = Rec("LintContext", file_path=OptPath, file_content=Opt(Str), language=Str, config=Any, metadata=Any)
+
+
+@opaque
+def sec_wf(section: Dict, language: Opt(Str)) -> Bool:
+    """The section has the documented shape (see wf_config)."""
+    return wf_config(section, language)
+
+
+@opaque
+def sec_allowed(section: Dict, language: Opt(Str)) -> SeqOf(Int):
+    """allowed_numbers chosen from a section for a language (override precedence, see chosen_allowed)."""
+    return chosen_allowed(section, language)
+
+
+@opaque
+def sec_max_small(section: Dict, language: Opt(Str)) -> Int:
+    """max_small_integer chosen from a section for a language (override precedence, see chosen_max_small)."""
+    return chosen_max_small(section, language)
+
+
+def section_cfg(section, language, result):
+    """result is the MagicNumberConfig that from_dict builds from `section` for `language` (override precedence)."""
+    return same_members(result.allowed_numbers, sec_allowed(section, language)) and \
+        result.max_small_integer == sec_max_small(section, language) and result.max_small_integer > 0
+
+
+def default_cfg(result):
+    return same_members(result.allowed_numbers, DEFAULT_ALLOWED) and result.max_small_integer == 10
+
+
+def reveal_section(section, language):
+    return reveal(sec_wf, section, language) and reveal(sec_allowed, section, language) and reveal(sec_max_small, section, language)
+
+
+@contract(LI + "MagicNumberRule._try_load_test_config", props=["C02", "C05"], types=dict(self=RuleT, context=LoadCtxT),
+          returns=Opt(ConfigT), raises=["ValueError"])
+class TryLoadTestConfig:
+    def requires(self, context):
+        return implies(isinstance(context.config, dict), sec_wf(context.config, context.language))
+
+    def reveals(self, context):
+        return reveal_section(context.config, context.language)
+
+    def raises_when(self, context):
+        return isinstance(context.config, dict) and sec_max_small(context.config, context.language) <= 0
+
+    def ensures_only_a_dict_config_attribute_is_used(self, context, result):
+        return (result is not None) == isinstance(context.config, dict)
+
+    def ensures_language_override_precedence(self, context, result):
+        return True if result is None else section_cfg(context.config, context.language, result)
+
+
+def prod_section(context):
+    """The metadata section that configures magic-numbers: `magic_numbers` (normalised key) wins over `magic-numbers`."""
+    return context.metadata["magic_numbers"] if "magic_numbers" in context.metadata else context.metadata["magic-numbers"]
+
+
+def has_prod_section(context):
+    return isinstance(context.metadata, dict) and ("magic_numbers" in context.metadata or "magic-numbers" in context.metadata)
+
+
+@contract(LI + "MagicNumberRule._try_load_production_config", props=["C02", "C05"], types=dict(self=RuleT, context=LoadCtxT),
+          returns=Opt(ConfigT), raises=["ValueError"], inline=["load_linter_config", "get_metadata", "get_language"])
+class TryLoadProductionConfig:
+    def requires(self, context):
+        return implies(has_prod_section(context) and isinstance(prod_section(context), dict),
+                       sec_wf(prod_section(context), context.language))
+
+    def reveals(self, context):
+        return True if not (has_prod_section(context) and isinstance(prod_section(context), dict)) else \
+            reveal_section(prod_section(context), context.language)
+
+    def raises_when(self, context):
+        return has_prod_section(context) and isinstance(prod_section(context), dict) \
+            and sec_max_small(prod_section(context), context.language) <= 0
+
+    def ensures_a_config_iff_a_section_exists(self, context, result):
+        return (result is not None) == has_prod_section(context)
+
+    def ensures_section_with_language_override_precedence(self, context, result):
+        return True if result is None else (
+            section_cfg(prod_section(context), context.language, result) if isinstance(prod_section(context), dict)
+            else default_cfg(result))
+
+
+def wf_load_ctx(context):
+    return implies(isinstance(context.config, dict), sec_wf(context.config, context.language)) and \
+        implies(has_prod_section(context) and isinstance(prod_section(context), dict),
+                sec_wf(prod_section(context), context.language))
+
+
+@contract(LI + "MagicNumberRule._load_config", props=["C02", "C05"], types=dict(self=RuleT, context=LoadCtxT), returns=ConfigT,
+          raises=["ValueError"])
+class RuleLoadConfig:
+    """Precedence of the configuration SOURCES: a dict `context.config` (test style), else the metadata section
+    `magic_numbers` / `magic-numbers`, else the defaults; within a section the language override precedence of from_dict."""
+
+    def requires(self, context):
+        return wf_load_ctx(context)
+
+    def ensures_source_precedence(self, context, result):
+        return (section_cfg(context.config, context.language, result) if isinstance(context.config, dict) else
+                ((section_cfg(prod_section(context), context.language, result) if isinstance(prod_section(context), dict)
+                  else default_cfg(result)) if has_prod_section(context) else default_cfg(result)))
+
+    def ensures_validated(self, context, result):
+        return result.max_small_integer > 0
+
+
+# =================================================================== constants-definition modules (definition_detector.py)
+# PROPERTY: "a file that is itself a constants-definition module" is exempt (when exempt_definition_files is on). The
+# module's own documentation defines such a file: name *_codes.py / *_constants.py / constants.py, or content with
+# 10+ module-level UPPERCASE numeric constant assignments, or a dict display with 5+ integer keys.
+DD = "src/linters/magic_numbers/definition_detector.py::"
+from contracts._common import re_search, py_walk  # noqa: E402
+
+DD_NAME_RE = "\\A(?:^[A-Z][A-Z0-9_]*$)"   # re.match(P, s) == re.search("\A(?:P)", s)
+ast_module_of = uf("ast_module_of", [Str], PyNode, concrete=lambda text: ast.parse(text))  # the tree ast.parse gives a text
+
+
+def dd_filename(file_path):
+    return file_path is not None and (path_name(file_path).lower().endswith("_codes.py")
+                                      or path_name(file_path).lower() == "constants.py"
+                                      or path_name(file_path).lower().endswith("_constants.py"))
+
+
+def dd_const_name(name):
+    """UPPERCASE constant name: at least two characters, [A-Z][A-Z0-9_]*."""
+    return len(name) >= 2 and re_search(DD_NAME_RE, name)
+
+
+def dd_numeric(value):
+    return isinstance(value, ast.Constant) and isinstance(value.value, (int, float))
+
+
+def dd_upper_target(t):
+    return isinstance(t, ast.Name) and dd_const_name(t.id)
+
+
+def dd_assign_count(n):
+    """UPPERCASE targets of one module-level statement that is an assignment of a numeric constant."""
+    return sum(1 for t in n.targets if dd_upper_target(t)) if isinstance(n, ast.Assign) and dd_numeric(n.value) else 0
+
+
+def dd_count(body: SeqOf(PyNode), acc: Int) -> Int:
+    if len(body) == 0:
+        return acc
+    return dd_count(body[1:], acc + dd_assign_count(body[0]))
+
+
+def dd_int_key(key):
+    return isinstance(key, ast.Constant) and isinstance(key.value, int)
+
+
+def dd_int_keys(d):
+    return sum(1 for key in d.keys if dd_int_key(key))
+
+
+def dd_has_int_dict(tree):
+    return any(dd_int_keys(node) >= 5 for node in py_walk(tree) if isinstance(node, ast.Dict))
+
+
+def dd_content(tree):
+    """10+ UPPERCASE numeric constants at module level, or a dict display with 5+ integer keys."""
+    return dd_count(tree.body, 0) >= 10 or dd_has_int_dict(tree)
+
+
+@contract(DD + "_matches_definition_filename", props=["C02"], types=dict(file_path=OptPath), returns=Bool)
+class DDMatchesFilename:
+    def value(file_path):
+        return dd_filename(file_path)
+
+
+@contract(DD + "_is_constant_name", props=["C02"], types=dict(name=Str), returns=Bool)
+class DDIsConstantName:
+    def value(name):
+        return dd_const_name(name)
+
+
+@contract(DD + "_is_numeric_constant", props=["C02"], types=dict(value=PyNode), returns=Bool)
+class DDIsNumericConstant:
+    def value(value):
+        return dd_numeric(value)
+
+
+@contract(DD + "_is_uppercase_name_target", props=["C02"], types=dict(target=PyNode), returns=Bool)
+class DDIsUppercaseNameTarget:
+    def value(target):
+        return dd_upper_target(target)
+
+
+@contract(DD + "_count_numeric_constant_targets", props=["C02"], types=dict(assign_node=PyNode), returns=Int)
+class DDCountNumericConstantTargets:
+    def requires(assign_node):
+        return isinstance(assign_node, ast.Assign)
+
+    def value(assign_node):
+        return dd_assign_count(assign_node)
+
+
+@contract(DD + "_count_uppercase_constants", props=["C02"], types=dict(tree=PyNode, count=Int, node=PyNode), returns=Int)
+class DDCountUppercaseConstants:
+    def requires(tree):
+        return isinstance(tree, ast.Module)
+
+    def value(tree):
+        return dd_count(tree.body, 0)
+
+    def inv0(tree, count, rest):
+        return dd_count(tree.body, 0) == dd_count(rest, count)
+
+
+@contract(DD + "_is_int_key", props=["C02"], types=dict(key=PyNode), returns=Bool)
+class DDIsIntKey:
+    def value(key):
+        return dd_int_key(key)
+
+
+@contract(DD + "_count_int_keys", props=["C02"], types=dict(dict_node=PyNode), returns=Int)
+class DDCountIntKeys:
+    def requires(dict_node):
+        return isinstance(dict_node, ast.Dict)
+
+    def value(dict_node):
+        return dd_int_keys(dict_node)
+
+
+@contract(DD + "_has_enough_int_keys", props=["C02"], types=dict(dict_node=PyNode), returns=Bool)
+class DDHasEnoughIntKeys:
+    def requires(dict_node):
+        return isinstance(dict_node, ast.Dict)
+
+    def value(dict_node):
+        return dd_int_keys(dict_node) >= 5
+
+
+@contract(DD + "_has_dict_with_int_keys", props=["C02"], types=dict(tree=PyNode), returns=Bool)
+class DDHasDictWithIntKeys:
+    def requires(tree):
+        return tree is not None
+
+    def value(tree):
+        return dd_has_int_dict(tree)
+
+
+@contract(DD + "_has_definition_content_patterns", props=["C02"], types=dict(content=Str, tree=PyNode), returns=Bool)
+class DDHasDefinitionContentPatterns:
+    def ensures_only_for_documented_content(content, result):
+        # (a text that does not parse is never a definition module; whether a text parses is the parser's business, so
+        # the clause is one-directional here -- the thresholds themselves are pinned by the exact helper contracts above
+        # and by the bounded differential c02-definition-files)
+        return implies(result, dd_content(ast_module_of(content)))
+
+
+@contract(DD + "is_definition_file~documented", props=["C02"], types=dict(file_path=OptPath, content=Opt(Str)), returns=Bool)
+class IsDefinitionFileDocumented:
+    """Verified view of is_definition_file (the untagged contract keeps it an uninterpreted FUNCTION of (path, content))."""
+
+    def ensures_definition_filename_is_enough(file_path, content, result):
+        return implies(dd_filename(file_path), result)
+
+    def ensures_otherwise_only_documented_content(file_path, content, result):
+        return implies(result and not dd_filename(file_path),
+                       content is not None and len(content) > 0 and dd_content(ast_module_of(content)))
+
+
+@custom("c02-definition-files", props=["C02"])
+def definition_files_bounded(ctx):
+    """Bounded native differential at is_definition_file: generated module texts around the documented thresholds (0..12
+    UPPERCASE numeric constants, lower-case / non-numeric decoys, dicts with 0..7 integer keys) and file names around the
+    documented patterns, against the documented rule."""
+    import importlib
+    import os
+    import pathlib
+    import sys
+    repo = ctx.get("repo") or os.environ.get("VERIF_REPO", "/repo")
+    if repo not in sys.path:
+        sys.path.insert(0, repo)
+    for m in [k for k in sys.modules if k == "src" or k.startswith("src.")]:
+        if not getattr(sys.modules[m], "__file__", "").startswith(os.path.abspath(repo)):
+            del sys.modules[m]
+    dd = importlib.import_module("src.linters.magic_numbers.definition_detector")
+    names = {"src/status_codes.py": True, "src/app_constants.py": True, "constants.py": True, "pkg/Constants.py": True,
+             "src/codes.py": False, "src/constants_util.py": False, "src/my_codes.pyc": False, "src/app.py": False,
+             "src/error_codes.py": True}
+    bad_name, bad_content, n = [], [], 0
+    for name, want in names.items():
+        for path in (pathlib.PurePosixPath(name), None):
+            n += 1
+            got = dd.is_definition_file(path, "x = 1\n")
+            exp = want and path is not None
+            if got != exp and len(bad_name) < 4:
+                bad_name.append({"file": str(path), "documented": exp, "code": got})
+    for k in range(0, 13):                 # UPPERCASE numeric constants at module level
+        for decoys in (0, 12):             # lower-case names / non-numeric values never count
+            for m in range(0, 8):          # integer keys in one dict display
+                for nested in (False, True):
+                    lines = [f"CONST_{i} = {100 + i}" for i in range(k)]
+                    lines += [f"lower_{i} = {i}" for i in range(decoys)] + [f"TEXT_{i} = 'v{i}'" for i in range(decoys)]
+                    d = "{" + ", ".join([f"{200 + i}: 'n{i}'" for i in range(m)] + ["'k': 0"]) + "}"
+                    lines.append(f"def f():\n    return {d}" if nested else f"table = {d}")
+                    text = "\n".join(lines) + "\n"
+                    n += 1
+                    exp = k >= 10 or m >= 5
+                    got = dd.is_definition_file(pathlib.PurePosixPath("src/app.py"), text)
+                    if got != exp and len(bad_content) < 4:
+                        bad_content.append({"uppercase_numeric_constants": k, "dict_int_keys": m, "dict_nested_in_function": nested,
+                                            "documented": exp, "code": got})
+    n += 1
+    if dd.is_definition_file(pathlib.PurePosixPath("src/app.py"), "def broken(:\n" + "\n".join(f"A_{i} = {i}" for i in range(20))):
+        bad_content.append({"content": "20 constants but a syntax error", "documented": False, "code": True})
+    return [{"name": f"bounded:is_definition_file/{k}-as-documented", "kind": "bounded", "verdict": "refuted" if v else "passed",
+             "tool": "exhaustive enumeration (native differential against the documented rule)",
+             "budget": "9 file names x {path, None}; 13 x 2 x 8 x 2 generated module texts", "cases": n, "witness": v,
+             "witness_confirmed": bool(v), "note": (f"first deviation: {v[0]}" if v else f"holds on all cases ({n} in total)")}
+            for k, v in (("file-name-patterns", bad_name), ("content-thresholds", bad_content))]
